@@ -124,7 +124,11 @@ TRUSTS = [None, [], [(0, 1, 1)], [(0, 1, "positive")], (0, 1, "positive"), [(0, 
           [(0, 1, 1), (0, 1, -1)], [(0, 1, 1), (0, 1, 1)], [(0, 5, 1)], [(-1, 1, 1)], [(0, 1)], [(0, 2, 1)],
           [(0, 1, 1), (0, 2, 1)], [(0.0, 1, 1)]]
 DOMS = [None, [], [(0, 1)], (0, 1), [[0, 1]], [(1, 0)], [(0, 1), (1, 0)], [(0, 1), (0, 1)], [(0, 5)], [(-1, 0)],
-        [(0, 1, 2)], [(0, 2)], [(0, 0)], [(0, 1.0)]]
+        [(0, 1, 2)], [(0, 2)], [(0, 0)], [(0, 1.0)],
+        # fix 2ef7ec2: circular dominance sets (3-cycle in two rotations, cycle behind a root, self pair after a valid
+        # pair) and acyclic ones that need several rounds (chain, chain listed backwards, transitive triangle)
+        [(0, 1), (1, 2), (2, 0)], [(1, 2), (2, 0), (0, 1)], [(0, 1), (1, 2), (2, 1)], [(0, 1), (1, 1)],
+        [(0, 1), (1, 2)], [(1, 2), (0, 1)], [(0, 1), (1, 2), (0, 2)]]
 JOINT_MONO = [None, [], [(0, 1)], (0, 1), [(0, 9)], [(0,)], [(0, -1)], [(1, 0), (0, 1)], [(0, 1.0)]]
 # typed: None | ("list", [(dims, dir), ...]) | ("single", dims, dir)
 JOINT_UNI = [None, ("list", []), ("list", [([0], "peak")]), ("list", [([0, 1], "valley")]),
@@ -137,6 +141,7 @@ JOINT_UNI = [None, ("list", []), ("list", [([0], "peak")]), ("list", [([0, 1], "
              ("single", [0, 0], "valley"), ("single", [0, 9], "peak"), ("single", [0], 1),
              ("list", [([0, 1, 2], "valley")])]
 SIZES = [[2], [2, 2], [3, 3], [3, 2], [2, 3, 2], [3, 3, 3], [1, 2], [2, 0], (3, 3)]
+EMPTY_SIZES = [[], (), None]     # fix 93797fc: `if not lattice_sizes` is a ValueError
 BOUNDS = [(None, None), (0.0, 1.0), (1.0, 0.0), (0.0, 0.0), (None, 1.0), (0.0, None), (-1.0, 2.0), (0, 1)]
 
 
@@ -242,7 +247,7 @@ def _specs():
   # ---- lattice_lib.verify_hyperparameters through LatticeConstraints
   def lat_factors(b):
     n = len(b["lattice_sizes"])
-    return dict(lattice_sizes=_uniq([b["lattice_sizes"]] + [s for s in SIZES if len(s) == n]),
+    return dict(lattice_sizes=_uniq([b["lattice_sizes"]] + [s for s in SIZES if len(s) == n] + EMPTY_SIZES),
                 monotonicities=lattice_mono(n), unimodalities=lattice_uni(n), edgeworth_trusts=TRUSTS,
                 trapezoid_trusts=TRUSTS[:9] + TRUSTS[13:16], monotonic_dominances=DOMS, range_dominances=DOMS[:8],
                 joint_monotonicities=JOINT_MONO, joint_unimodalities=JOINT_UNI,
@@ -266,7 +271,7 @@ def _specs():
   # ---- initialisers: lattice verify with output bounds
   def li_factors(b):
     n = len(b["lattice_sizes"])
-    return dict(lattice_sizes=_uniq([b["lattice_sizes"]] + [s for s in SIZES if len(s) == n]),
+    return dict(lattice_sizes=_uniq([b["lattice_sizes"]] + [s for s in SIZES if len(s) == n] + EMPTY_SIZES),
                 monotonicities=lattice_mono(n), unimodalities=lattice_uni(n),
                 output_min=[x for x, _ in BOUNDS] + [2.0], output_max=[y for _, y in BOUNDS] + [-1.0])
   li_args = [("lattice_sizes", "v"), ("monotonicities", "v"), ("output_min", "v"), ("output_max", "v"),
@@ -283,7 +288,7 @@ def _specs():
   # ---- lattice regularizers: amounts
   AMT = [0.0, 0.5, 1, [0.1, 0.2], (0.1, 0.2), [0.1], [0.1, 0.2, 0.3], [], None, [0.0, 0.0]]
   def reg_factors(b):
-    return dict(lattice_sizes=[[2, 2], [3, 2], (2, 2), [2, 3, 2], [1, 2], [2]], l1=AMT, l2=AMT)
+    return dict(lattice_sizes=[[2, 2], [3, 2], (2, 2), [2, 3, 2], [1, 2], [2], [], ()], l1=AMT, l2=AMT)
   reg_args = [("lattice_sizes", "v"), ("l1", "v"), ("l2", "v")]
   S.append(Spec("LaplacianRegularizer", "laplacianRegularizer", reg_args,
                 [dict(lattice_sizes=[2, 2], l1=0.5, l2=0.0)], reg_factors, lambda c: ll.LaplacianRegularizer(**c)))
@@ -318,7 +323,8 @@ def _specs():
                       missing_output_value=None, input_keypoints_type="fixed", clamp_min=False, clamp_max=False,
                       kernel_initializer="zeros")],
                 pwl_factors, lambda c: pl.PWLCalibration(**c)))
-  LEN = [None, [1.0, 2.0], [1.0], []]
+  # fix e215d06: list lengths must all be positive (zero, negative, a zero in front of a None: all() short-circuits)
+  LEN = [None, [1.0, 2.0], [1.0], [], [0.0, 0.0, 1.0], [1.0, 0.0], [1.0, -0.5], [1, 2], (1.0, 2.0), [0.0, None], [0, 1]]
   def pwc_factors(b):
     return dict(monotonicity=MONO1, convexity=CONV, lengths=LEN, output_min=OUTB, output_max=OUTB)
   S.append(Spec("PWLCalibrationConstraints", "pwlConstraints",
@@ -335,7 +341,9 @@ def _specs():
   # ---- Linear
   def lmono(n):
     return _uniq([[0] * n, [1] * n, [1] + [0] * (n - 1), ["increasing"] * n, [-1] * n, ["decreasing"] + [1] * (n - 1),
-                  tuple([1] * n), [1] * (n + 1), [1] * (n - 1), [2] * n, ["peak"] * n, None, [1, -1, 0][:n], [1, 1, -1][:n], [-1, -1, 1][:n]])
+                  tuple([1] * n), [1] * (n + 1), [1] * (n - 1), [2] * n, ["peak"] * n, None, [1, -1, 0][:n], [1, 1, -1][:n], [-1, -1, 1][:n],
+                  # fix 1f0b06a: a monotonicity None is falsy like 0 (range dominance rejected)
+                  [None] * n, [None, None, 1][:n], [1, 1, None][:n]])
   def lbound(n, v, w):
     return _uniq([None, [v] * n, [v] + [None] * (n - 1), [v] + ["none"] * (n - 1), [int(v)] * n, [v] * (n + 1),
                   [w] * n, tuple([v] * n), [], [v, w, v][:n]])
@@ -355,6 +363,10 @@ def _specs():
                  dict(monotonicities=[1, 1], monotonic_dominances=None, range_dominances=[(0, 1)], input_min=[0.0, 0.0],
                       input_max=[1.0, 1.0]),
                  dict(monotonicities=[-1, -1, 1], monotonic_dominances=None, range_dominances=[(0, 1)],
+                      input_min=[0.0, 0.0, 0.0], input_max=[1.0, 1.0, 1.0]),
+                 dict(monotonicities=[1, 1, 1], monotonic_dominances=[(0, 1), (1, 2)], range_dominances=None,
+                      input_min=[0.0, 0.0, 0.0], input_max=[1.0, 1.0, 1.0]),
+                 dict(monotonicities=[-1, -1, -1], monotonic_dominances=None, range_dominances=[(0, 1), (1, 2)],
                       input_min=[0.0, 0.0, 0.0], input_max=[1.0, 1.0, 1.0])],
                 lc_factors, lambda c: lin.LinearConstraints(**c)))
   def ll_factors(b):
@@ -376,7 +388,7 @@ def _specs():
   KINIT = {"other": "random_uniform_or_linear_initializer"}
   def lay_factors(b):
     n = len(b["lattice_sizes"])
-    return dict(lattice_sizes=_uniq([b["lattice_sizes"]] + [s for s in SIZES if len(s) == n]),
+    return dict(lattice_sizes=_uniq([b["lattice_sizes"]] + [s for s in SIZES if len(s) == n] + EMPTY_SIZES),
                 monotonicities=lattice_mono(n), unimodalities=lattice_uni(n), joint_unimodalities=JOINT_UNI,
                 output_min=[None, 0.0, 1.0, 0, 2.0], output_max=[None, 0.0, 1.0, 2.0, -1.0],
                 interpolation=["hypercube", "simplex", "Simplex", "other"],
@@ -414,15 +426,16 @@ def _specs():
            [(None, 1)], [(0, "none")], [(0, 1), (-1.0, 0)], [(0, 7.0)]]
   def cc_factors(b):
     return dict(num_buckets=[1, 2, 3, 4, None], output_min=OUTB, output_max=OUTB, monotonicities=PAIRS)
+  # fix 76984f9: num_buckets < 1 is a ValueError (0, -1; a float 0.5; None is "unknown")
+  NB = [0, -1, 1, 3, 4, 0.5]
   S.append(Spec("CategoricalCalibrationConstraints", "categoricalConstraints",
                 [("output_min", "v"), ("output_max", "v"), ("monotonicities", "v")],
                 [dict(output_min=0.0, output_max=1.0, monotonicities=[(0, 1)])],
                 cc_factors, lambda c: cl.CategoricalCalibrationConstraints(**c)))
   S.append(Spec("CategoricalCalibration", "categoricalLayer",
                 [("num_buckets", "v"), ("output_min", "v"), ("output_max", "v"), ("monotonicities", "v")],
-                [dict(num_buckets=3, output_min=0.0, output_max=1.0, monotonicities=[(0, 1)]),
-                 dict(num_buckets=4, output_min=None, output_max=None, monotonicities=None)],
-                lambda b: dict(cc_factors(b), num_buckets=[1, 2, 3, 4]), lambda c: cl.CategoricalCalibration(**c)))
+                [dict(num_buckets=3, output_min=0.0, output_max=1.0, monotonicities=[(0, 1)])],
+                lambda b: dict(cc_factors(b), num_buckets=NB), lambda c: cl.CategoricalCalibration(**c)))
   # ---- KFL
   def kfl_factors(b):
     return dict(lattice_sizes=[0, 1, 2, 3, -1], units=[0, 1, 2, -1], num_terms=[0, 1, 2, -1],
@@ -507,7 +520,7 @@ def _specs():
     return dict(kind=[0, 1, 2, 3], features=FLISTS, parameterization=["all_vertices", "kronecker_factored"],
                 regularizers=["none", "calib", "lattice"],
                 lattices=["rtl_layer", "random", [["f0", "f1"], ["f1", "f0"]], [["f0", "f1"]], [["f0", 1], ["f1", "f0"]],
-                          [], None, [["f0"], "f1"]],
+                          [], None, [["f0"], "f1"], [["f0", "f1"], []], [[], ["f0", "f1"], ["f1", "f0"]]],
                 num_lattices=[None, 1, 2, 3], middle_dimension=[0, 1, 2], middle_calibration=[False, True],
                 middle_monotonicity=[None, "increasing"],
                 output_initialization=[[0.0, 1.0], "quantiles", "uniform", [0, 1], [0.0, "a"], None, []])
@@ -553,7 +566,7 @@ def pm_codes(c):
     lc = (1, 0)
   elif isinstance(lat, list):
     import numpy as np
-    bad = any((not np.iterable(l)) or any(not isinstance(x, str) for x in l) for l in lat)
+    bad = any((not np.iterable(l)) or not len(l) or any(not isinstance(x, str) for x in l) for l in lat)
     lc = (3 if bad else 2, len(lat))
     if bad:
       # the real loop raises at the first bad entry only if len >= 2 (length is checked first)
@@ -564,7 +577,7 @@ def pm_codes(c):
   if isinstance(oi, str) or oi is None:
     oic = 1 if isinstance(oi, str) else 3
   else:
-    oic = 2 if any(not isinstance(x, (int, float)) for x in oi) else 0
+    oic = 4 if not len(oi) else (2 if any(not isinstance(x, (int, float)) for x in oi) else 0)
   return dict(kind=c["kind"], feats=feats, kf=int(c["parameterization"] == "kronecker_factored"),
               regs={"none": 0, "calib": 1, "lattice": 2}[c["regularizers"]], lat=lc[0], nlat=lc[1],
               num_lattices=c["num_lattices"], mid_dim=c["middle_dimension"], mid_cal=int(c["middle_calibration"]),
